@@ -181,6 +181,10 @@ class Scenario:
     def env_config(self) -> str:
         return self.config
 
+    def after_run(self, env: Env, final: Any) -> dict:
+        """Extra observations at the end of one execution (merged into its result)."""
+        return {}
+
     # one concurrent execution --------------------------------------------------------------------
     def execute(self, ch: Chooser) -> dict:
         env, ids = build(self.env_config(), self.setup)
@@ -205,8 +209,10 @@ class Scenario:
                 self.end_sched()
             errors = [t.error for t in threads if t.error]
             final = dump(env.storage)
-            return {"hist": hist, "final": final, "deadlock": sched.deadlock, "errors": errors,
-                    "trace": sched.trace, "steps": sched.step}
+            out = {"hist": hist, "final": final, "deadlock": sched.deadlock, "errors": errors,
+                   "trace": sched.trace, "steps": sched.step}
+            out.update(self.after_run(env, final))
+            return out
         finally:
             env.close()
 
